@@ -184,6 +184,11 @@ class ExecMixin(object):
                 items = v.items
             elif isinstance(v, VRef) and isinstance(st.heap[v.oid], HCList):
                 items = st.heap[v.oid].items
+            if items is None and isinstance(v, VRef) and isinstance(st.heap[v.oid], HList):
+                c = st.heap[v.oid]
+                self.safety(st, "ValueError", c.n == len(t.elts), node,
+                            "unpacking needs exactly %d values" % len(t.elts))
+                items = [wrap(c.ek, z3.Select(c.arr, i)) for i in range(len(t.elts))]
             if items is None or len(items) != len(t.elts):
                 raise OutOfSubset("tuple unpacking of %r" % (v,), node)
             for x, y in zip(t.elts, items):
@@ -213,6 +218,14 @@ class ExecMixin(object):
                 if isinstance(cell, HOpaque):
                     return     # container the contract does not speak about
                 if isinstance(cell, HDict):
+                    st.env["tree_key"], st.env["tree_val"] = idx, v
+                    if cell.items is not None and not is_lit_str(idx):
+                        keys = z3.K(StrS, z3.BoolVal(False))
+                        vals = z3.K(StrS, PyVal.pnone)
+                        for k_, v_ in cell.items.items():
+                            keys = z3.Store(keys, z3.StringVal(k_), True)
+                            vals = z3.Store(vals, z3.StringVal(k_), self.to_py(v_))
+                        cell = HDict("py", keys, vals, size=z3.IntVal(len(cell.items)))
                     if cell.items is not None:
                         if not is_lit_str(idx):
                             raise OutOfSubset("static dict store with symbolic key", node)
@@ -582,6 +595,8 @@ class ExecMixin(object):
             return HObj(cell.cls, dict((k, self.fresh_like(v, st, k)) for k, v in cell.f.items()))
         if isinstance(cell, HDict) and cell.items is None:
             return self.fresh_dict(cell.ek, nm, st, cell.default, cell.size is not None)
+        if isinstance(cell, HDict):
+            return self.fresh_dict("py", nm, st, False, True)     # a dict literal that is filled in a loop
         raise OutOfSubset("cannot havoc cell %r" % (cell,))
 
     def merge_at_loop(self, stmt, states):
